@@ -85,7 +85,14 @@ func (x *Exec) doCall(res ssa.Value, call *ssa.CallCommon, p token.Pos) {
 		recv := x.val(call.Value)
 		x.safe("nilderef", "invoke."+call.Method.Name(), "(not (= "+x.termOf(recv)+" ANil))", p)
 		key := ifaceKey(call.Value.Type(), call.Method)
-		if c, ok := x.V.DB.ByKey[key]; ok {
+		c, ok := x.V.DB.ByKey[key]
+		if x.V.curDir != "" {
+			// an interface contract written for the callers of one package only (iface <name>@<dir>)
+			if sc, sok := x.V.DB.ByKey[key+"@"+x.V.curDir]; sok {
+				c, ok = sc, true
+			}
+		}
+		if ok {
 			sig := call.Method.Type().(*types.Signature)
 			if cb := c.Options["callback"]; cb != "" {
 				// "calls its function argument exactly once, synchronously, and returns
@@ -766,6 +773,16 @@ func (x *Exec) builtinSpec(f *ssa.Function, args []Val, call *ssa.CallCommon, p 
 			x.V.noteAssumed(name + " = bjoin(list, sep) [built-in model of the standard library]")
 			return tv("(bjoin " + l + " " + x.termOf(args[1]) + ")"), true
 		}
+		// a slice whose length is not known statically: the join is named by bjoinA over
+		// the slice's backing array, offset and length (uninterpreted; what a contract
+		// needs of it is stated by its prelude)
+		{
+			sv, svs, _ := x.sliceHeap(elem)
+			s := x.termOf(args[0])
+			x.needDecl("bjoinA", "(declare-fun bjoinA ((Array Int Str) Int Int Str) Str)")
+			x.V.noteAssumed(name + " of a slice of unknown length = bjoinA(elements, offset, length, sep): a function of the elements and the separator [built-in model of the standard library]")
+			return tv(fmt.Sprintf("(bjoinA (select %s (sref %s)) (soff %s) (slen %s) %s)", x.getSV(sv, svs), s, s, s, x.termOf(args[1]))), true
+		}
 	case "bytes.Split", "strings.Split", "bytes.SplitN", "strings.SplitN":
 		x.V.noteAssumed(name + " = bsplit(s, sep) [built-in model of the standard library]")
 		r := x.newRef()
@@ -792,6 +809,17 @@ func (x *Exec) builtinSpec(f *ssa.Function, args []Val, call *ssa.CallCommon, p 
 		if len(args) == 2 && call != nil {
 			if fc, ok := call.Args[0].(*ssa.Const); ok && fc.Value != nil && fc.Value.Kind() == constant.String {
 				format := constant.StringVal(fc.Value)
+				if format == "%#v" {
+					// Go-syntax rendering of one operand: a function of the value, named gosyntax
+					s := x.termOf(args[1])
+					h := x.getSV("SH.Any", "(Array Int (Array Int Any))")
+					x.needDecl("gosyntax", "(declare-fun gosyntax (Any) Str)")
+					r := tv(x.smt.fresh("sprintf", "Str"))
+					el := fmt.Sprintf("(select (select %s (sref %s)) (ix (soff %s) 0))", h, s, s)
+					x.smt.assume(implies(x.reach, implies(fmt.Sprintf("(= (slen %s) 1)", s), eq(r.T, "(gosyntax "+el+")"))))
+					x.V.noteAssumed("fmt.Sprintf(\"%#v\", v) = gosyntax(v): a function of the value [built-in model of the standard library]")
+					return r, true
+				}
 				pieces := strings.Split(format, "%s")
 				if !strings.Contains(strings.Join(pieces, ""), "%") {
 					r := tv(x.smt.fresh("sprintf", "Str"))
